@@ -98,6 +98,8 @@ RETS = {
     "opt_u64": R("Option<u64>", "if sel % 3 == 0 { None } else if sel % 3 == 1 { Some(k) } else { Some(u64::MAX) }"),
     "opt_ref": R("Option<&u64>", "if sel % 2 == 0 { None } else { sent(&this.words[2] as *const u64); Some(&this.words[2]) }", rdig="r.map(dig_ref).dig()", recv="ref", ref=True),
     "res": R("Result<u64, u32>", "if sel % 2 == 0 { Ok(k) } else { Err(k as u32) }"),
+    # error type that implements IntError (lossy) in a method that does NOT ask for integer results: must stay a CResult
+    "res_ie": R("Result<u64, DetErr>", "if sel % 2 == 0 { Ok(k) } else { Err(DetErr { code: 22, detail: 1000 + k as u32 }) }"),
     "opt_ptr": R("Option<*const u8>", "if sel % 3 == 0 { None } else if sel % 3 == 1 { sent(BYTES3.as_ptr()); Some(BYTES3.as_ptr()) } else { sent(::core::ptr::null::<u8>()); Some(::core::ptr::null::<u8>()) }"),
     "opt_q": R("::core::option::Option<u64>", "if sel % 3 == 0 { None } else if sel % 3 == 1 { Some(k) } else { Some(u64::MAX) }"),
     "res_q": R("::std::result::Result<u64, u32>", "if sel % 2 == 0 { Ok(k) } else { Err(k as u32) }"),
@@ -118,7 +120,7 @@ RETS = {
     "no_int": R("Result<u64, u32>", "if sel % 2 == 0 { Ok(k) } else { Err(k as u32) }", attr="#[int_result]\n    #[no_int_result]"),
     "int_fmt": R("Result<u64, ::core::fmt::Error>", "if sel % 2 == 0 { Ok(k) } else { Err(::core::fmt::Error) }", rdig="r.map_err(|_| 1u32).dig()", attr="#[int_result]"),
 }
-SELS = {"int_zst_drop": 2, "opt_ptr": 3, "opt_q": 3, "res_q": 2, "int_q": 2, "slice_u8": 5, "slice_mut": 4, "str": 4, "opt_u64": 3, "opt_ref": 2, "res": 2, "res_unit": 2, "int_u64": 2, "int_unit": 2,
+SELS = {"res_ie": 2, "int_zst_drop": 2, "opt_ptr": 3, "opt_q": 3, "res_q": 2, "int_q": 2, "slice_u8": 5, "slice_mut": 4, "str": 4, "opt_u64": 3, "opt_ref": 2, "res": 2, "res_unit": 2, "int_u64": 2, "int_unit": 2,
         "int_drop": 2, "int_io": 3, "int_unit_io": 3, "int_alias": 2, "no_int": 2, "int_fmt": 2}
 
 
@@ -322,7 +324,7 @@ def emit_trait(t):
 # spelling variants of shapes that are already in the grammar: swept per receiver and per position in both tiers,
 # left out of the thorough cross products
 LIGHT_ARGS = {"opt_q", "res_q"}
-LIGHT_RETS = {"opt_q", "res_q", "int_q"}
+LIGHT_RETS = {"opt_q", "res_q", "int_q", "res_ie"}
 
 
 def build(tier):
@@ -374,6 +376,9 @@ def build(tier):
     add([Method("ma", "ref", ["u64"], "u64"), Method("mb", "ref", ["u64"], "u64"), Method("mc", "ref", ["u64"], "u64")], "3 methods with identical signatures")
     add([Method("ma", "pinmut", ["opt_u64"], "s3"), Method("mb", "pinref", [], "slice_u8" if False else "u64"), Method("mc", "mut", ["mut_ref"], "int_u64")], "3 methods: pinmut/pinref/mut with int_result")
     add([Method("ma", "mut", [], "slice_mut"), Method("mb", "ref", [], "slice_u8"), Method("mc", "ref", [], "str")], "3 methods returning borrows of the state")
+    # a method-level #[int_result] must not leak into its neighbours: plain Result methods before and after it keep their CResult
+    add([Method("ma", "ref", ["u64"], "res_ie"), Method("mb", "ref", ["u64"], "int_u64"), Method("mc", "mut", ["u64"], "res_ie")],
+        "3 methods: CResult with an IntError error type, int_result, CResult with an IntError error type again")
     # methods with a default body that the implementor overrides (with and without a `where Self: Sized` clause)
     add([Method("ma", "ref", ["u64"], "u64", default="plain"), Method("mb", "mut", ["u64"], "u64", default="sized"), Method("mc", "ref", [], "u64")], "default bodies overridden by the implementor (plain / where Self: Sized) + required method")
     add([Method("ma", "ref", ["slice_u8"], "u64", default="sized"), Method("mb", "own", ["u64"], "u64", default="sized")], "default bodies: sized with slice argument, consuming with default (where Self: Sized)")
@@ -691,6 +696,73 @@ pub mod xo {
         Ok(digest(&words.len()))
     }
 }
+
+/// hand-written structure member: several temporary-storage slots of mixed receiver kind; the temporary storage keeps the
+/// methods' declaration order (a `&mut self` method declared before two `&self` methods)
+pub mod xo2 {
+    #![allow(unused_variables, unused_mut, clippy::all)]
+    use h_objbase::support::*;
+    use cglue::*;
+    #[cglue_trait]
+    pub trait Inner2 {
+        fn iv(&self) -> u64;
+    }
+    #[cglue_trait]
+    pub trait Outer2 {
+        #[wrap_with_obj_mut(Inner2)]
+        type KidM: Inner2 + 'static;
+        #[wrap_with_obj_ref(Inner2)]
+        type KidA: Inner2 + 'static;
+        #[wrap_with_obj_ref(Inner2)]
+        type KidB: Inner2 + 'static;
+        fn kid_m(&mut self) -> &mut Self::KidM;
+        fn kid_a(&self) -> &Self::KidA;
+        fn kid_b(&self) -> &Self::KidB;
+    }
+    pub struct K(pub u64);
+    impl Inner2 for K {
+        fn iv(&self) -> u64 {
+            self.0
+        }
+    }
+    pub struct O2 {
+        pub m: K,
+        pub a: K,
+        pub b: K,
+    }
+    impl Outer2 for O2 {
+        type KidM = K;
+        type KidA = K;
+        type KidB = K;
+        fn kid_m(&mut self) -> &mut K {
+            &mut self.m
+        }
+        fn kid_a(&self) -> &K {
+            &self.a
+        }
+        fn kid_b(&self) -> &K {
+            &self.b
+        }
+    }
+    pub const DESC: &str = "single-trait object with three temporary-storage slots (&mut self method declared first, then two &self methods): slots in declaration order";
+    pub fn raw_check() -> Result<u64, (String, String)> {
+        let mut obj = trait_obj!(O2 { m: K(1), a: K(2), b: K(3) } as Outer2);
+        let base = &obj as *const _ as usize;
+        let size = ::core::mem::size_of_val(&obj);
+        // the wrapped references handed out live in the object's temporary storage: their addresses are the slots
+        let om = { let r = obj.kid_m(); if r.iv() != 1 { return Err(("objlayout:dispatch".into(), "kid_m reaches another child".into())); } r as *mut _ as *mut u8 as usize - base };
+        let oa = { let r = obj.kid_a(); if r.iv() != 2 { return Err(("objlayout:dispatch".into(), "kid_a reaches another child".into())); } r as *const _ as *const u8 as usize - base };
+        let ob = { let r = obj.kid_b(); if r.iv() != 3 { return Err(("objlayout:dispatch".into(), "kid_b reaches another child".into())); } r as *const _ as *const u8 as usize - base };
+        if om >= size || oa >= size || ob >= size {
+            return Err(("objlayout:tmp_outside".into(), format!("wrapped references are not inside the object's temporary storage (offsets {}, {}, {}; object {} bytes)", om, oa, ob, size)));
+        }
+        // vtable pointer + CBox (3 words) come first
+        if !(24 <= om && om < oa && oa < ob) {
+            return Err(("objlayout:tmp_order".into(), format!("temporary-storage slots of kid_m, kid_a, kid_b sit at offsets {}, {}, {}: not in the methods' declaration order after the instance", om, oa, ob)));
+        }
+        Ok(digest(&(om, oa, ob, size)))
+    }
+}
 """
 
 NSHARD = 8
@@ -751,6 +823,7 @@ def main():
             chunks.append(HAND_TV)
         if k == 2:
             reg.append("        (900002, xo::DESC, xo::raw_check as fn() -> Result<u64, (String, String)>),")
+            reg.append("        (900003, xo2::DESC, xo2::raw_check as fn() -> Result<u64, (String, String)>),")
             chunks.append(HAND_O)
         reg.append("    ]")
         reg.append("}")
